@@ -6,7 +6,7 @@ location spellings (relative, dotted, absolute, file URL, the same file included
 the global maps followed by build(); pickle round trip.  Each arrangement must give the same global components and, for every probe, the
 same errors and the same decoded data as the reference arrangement.  Import order of two other namespaces is permuted as well.
 """
-import copy, os, pickle, random, shutil, tempfile
+import copy, os, pickle, random, shutil, sys, tempfile
 from .common import pmap, result
 from .C01 import _cls
 XS = 'xmlns:xs="http://www.w3.org/2001/XMLSchema"'
@@ -230,6 +230,49 @@ def override_layouts(root):
     return result('C09.override_reaches_included_documents', '4 layouts of an XSD 1.1 override (the overridden element / type / attribute group in the overridden document, in a document it includes, two levels down) x 3 probes', n, fails, exhaustive=True)
 
 
+VC_SCHEMA = '''<xs:schema xmlns:xs="http://www.w3.org/2001/XMLSchema" xmlns:vc="http://www.w3.org/2007/XMLSchema-versioning">
+  <xs:element name="stamp" type="xs:dateTimeStamp" vc:typeAvailable="xs:dateTimeStamp"/>
+  <xs:element name="stamp" type="xs:string" vc:typeUnavailable="xs:dateTimeStamp"/>
+  <xs:element name="n" type="xs:int" vc:typeAvailable="xs:int xs:string"/>
+  <xs:element name="n" type="xs:boolean" vc:typeUnavailable="xs:int"/>
+  <xs:element name="later" type="xs:int" vc:minVersion="1.1"/><xs:element name="later" type="xs:boolean" vc:maxVersion="1.1"/>
+  <xs:element name="plain" type="xs:date"/>
+</xs:schema>'''
+_FRESH = '''import sys, json, xmlschema
+ver, text = sys.argv[1], sys.stdin.read()
+cls = xmlschema.XMLSchema11 if ver == '1.1' else xmlschema.XMLSchema10
+def summary(s):
+    probes = ['<stamp>2020-01-01T00:00:00Z</stamp>', '<stamp>text</stamp>', '<n>5</n>', '<n>true</n>', '<later>1</later>', '<later>true</later>', '<plain>2020-01-01</plain>']
+    return [sorted([type(c).__name__, c.name, getattr(getattr(c, 'type', None), 'name', None)] for c in s.maps.iter_globals() if c.name and not c.name.startswith('{')),
+            [[[e.reason[:60] for e in s.iter_errors(p)], repr(s.decode(p, validation='lax')[0])] for p in probes]]
+out = []
+for _ in range(2):
+    try: out.append(summary(cls(text)))
+    except Exception as e: out.append(['EXC', type(e).__name__, str(e)[:100]])
+print(json.dumps(out))
+'''
+
+
+def first_build_in_a_fresh_interpreter():
+    """the first schema an interpreter builds (the meta-schema of its class not built yet) against the second build of the same source in that interpreter: conditional inclusion
+    (vc:typeAvailable / vc:typeUnavailable / vc:minVersion / vc:maxVersion) consults the maps before they are built"""
+    import subprocess, json as _json
+    fails = []; n = 0
+    env = dict(os.environ, PYTHONPATH=os.environ.get('VERIF_REPO', '/repo'))
+    for ver in ('1.0', '1.1'):
+        n += 1
+        p = subprocess.run([sys.executable, '-c', _FRESH, ver], input=VC_SCHEMA, capture_output=True, text=True, env=env, timeout=300)
+        if p.returncode: raise RuntimeError('fresh interpreter failed: ' + p.stderr[-300:])
+        first, second = _json.loads(p.stdout.strip().splitlines()[-1])
+        if first and first[0] == 'EXC' and second and second[0] == 'EXC': raise RuntimeError(f'the conditional-inclusion schema does not build: {first}')
+        stamp = [g for g in second[0] if g[1] == 'stamp']
+        if ver == '1.1' and (not stamp or 'dateTimeStamp' not in str(stamp[0][2])): raise RuntimeError(f'vc:typeAvailable is not honoured in the reference build: {stamp}')
+        if first != second:
+            fails.append(dict(case=dict(fresh_interpreter=ver), observed=dict(first_build=first[0] if first[0] != second[0] else first[1], second_build=second[0] if first[0] != second[0] else second[1]),
+                              required='the first build of a source in an interpreter gives the same components, errors and data as the second'))
+    return result('C09.first_build_in_a_fresh_interpreter', 'a schema with vc:typeAvailable / vc:typeUnavailable / vc:minVersion / vc:maxVersion alternatives built twice as the first two schemas of a new interpreter, both classes, 7 probes', n, fails, exhaustive=True)
+
+
 def run(tier, seed, open_findings):
     root = tempfile.mkdtemp(prefix='verif_c09_')
     try:
@@ -242,7 +285,7 @@ def run(tier, seed, open_findings):
             if got != refs[ver]:
                 diff = got if got and got[0] == 'EXC' else ('globals differ' if got[0] != refs[ver][0] else 'probe results differ')
                 fails.append(dict(case=dict(ver=ver, kind=kind, seed=sd), observed=diff, required='same global components, errors and data as the reference arrangement'))
-        return [override_layouts(root), chameleon_import_orders(root), defined_attribute_wildcard(root, open_findings), result('C09.arrangements', f'{len(jobs)} arrangements ({", ".join(KINDS)}) x {len(PROBES)} probe instances, both classes', len(jobs) * len(PROBES), fails,
+        return [first_build_in_a_fresh_interpreter(), override_layouts(root), chameleon_import_orders(root), defined_attribute_wildcard(root, open_findings), result('C09.arrangements', f'{len(jobs)} arrangements ({", ".join(KINDS)}) x {len(PROBES)} probe instances, both classes', len(jobs) * len(PROBES), fails,
                        samples=[dict(kind='spell', note='the same file included twice under two spellings')], distinct=len(jobs))]
     finally:
         shutil.rmtree(root, ignore_errors=True)
@@ -251,6 +294,8 @@ def run(tier, seed, open_findings):
 def replay(check_name, case):
     root = tempfile.mkdtemp(prefix='verif_c09_')
     try:
+        if case.get('fresh_interpreter'):
+            r = first_build_in_a_fresh_interpreter(); mine = [f for f in r['failures'] if f['case'] == case]; return dict(ok=not mine, observed=mine[:1], required='first build equals second build')
         if case.get('override_layout'):
             r = override_layouts(root); mine = [f for f in r['failures'] if f['case'] == case]; return dict(ok=not mine, observed=mine[:1], required='same schema in every layout')
         if case.get('chameleon'):
